@@ -80,9 +80,9 @@ def run(ctx):
                     if sf is not None and sf[-1] == 'buffer' and fn.self_adt in (prog.pool_adts | prog.tree_adts):
                         n_writes += 1
                         ctx.add(RULE, fn, 'arena-move(%s)' % name, 'violation', 'on the insert path elements of the arena vector are moved by %s' % name, PROPS, span_line(c, fn.line))
-        ctx.add(RULE, root, 'closure', 'ok' if n_writes >= 2 else 'violation',
-                '%d functions reachable from insert, %d payload write sites examined' % (len(fns), n_writes) if n_writes >= 2 else
-                'anchor-missing: fewer than 2 payload write sites found on the insert path (%d): the recogniser lost its anchors' % n_writes,
+        ctx.add(RULE, root, 'closure', 'ok' if n_writes >= 1 else 'violation',
+                '%d functions reachable from insert, %d payload write sites examined' % (len(fns), n_writes) if n_writes >= 1 else
+                'anchor-missing: no payload write site found on the insert path (%d): the recogniser lost its anchors' % n_writes,
                 PROPS, root.line, {'functions': sorted(f.name for f in fns)})
     # lookups cannot write: no interior mutability in the collection types
     for adt_path in sorted(prog.tree_adts | prog.pool_adts | prog.node_adts):
